@@ -98,6 +98,18 @@ def renderOut (o : JOut) : String :=
   let fields := renderList ((sortPairs o.fields).map (fun kv => esc kv.1 ++ "=" ++ kv.2))
   s!"P;{esc o.name};{o.time};{boolTok o.byName};{dims};{tags};{fields}"
 
+def renderBOut (o : JBOut) : String :=
+  let tags := renderList ((sortPairs o.tags).map (fun kv => esc kv.1 ++ "=" ++ esc kv.2))
+  let dims := renderList ((sortPairs o.tags).map (fun kv => esc kv.1))
+  let pts := o.points.map (fun p => s!"{p.1}^{tags}^{renderList ((sortPairs p.2).map (fun kv => esc kv.1 ++ "=" ++ kv.2))}")
+  s!"Q;{esc o.name};{o.time};{boolTok o.byName};{dims};{tags};" ++ "!".intercalate (toString pts.length :: pts)
+
+def parsePts (s : String) : Option (List BPt) :=
+  if s == "-" || s.isEmpty then some [] else
+  (s.splitOn "!").mapM (fun e => match e.splitOn "^" with
+    | [t, f] => do pure { time := (← t.toInt?), fields := (← parsePairs f) }
+    | _ => none)
+
 def renderGroups (nd : JNode) : List String :=
   let gs := nd.groups.mergeSort (fun a b => decide (a.1 ≤ b.1))
   gs.map (fun (k, g) =>
@@ -135,6 +147,7 @@ structure St where
   jRaw : List (Nat × String) := []        -- (parent, op text) reversed
   jDead : Bool := false
   jBars : Bool := false
+  jBatch : Bool := false
   -- real task
   tKind : String := ""
   tDims : List String := []
@@ -231,7 +244,8 @@ def judgeLine (st : St) (l : String) : Except Verdict St := do
   | "join" :: "new" :: rest =>
     let some cfg := parseCfg rest | throw (.badop l)
     if obs != ["ok"] then throw (.mismatch s!"join new: observed {obs}")
-    pure { st with kind := "join", jcfg := cfg, jcfgText := " ".intercalate rest, jn := JNode.init, jArr := [], jSteps := [], jObs := [], jRaw := [], jDead := false }
+    pure { st with kind := "join", jcfg := cfg, jcfgText := " ".intercalate rest, jn := JNode.init, jArr := [], jSteps := [], jObs := [], jRaw := [], jDead := false,
+                   jBatch := (kvGet (kvOf rest) "edge") == some "batch" }
   | "j" :: "pt" :: src :: t :: rest =>
     let some src := src.toNat? | throw (.badop l)
     let some t := t.toInt? | throw (.badop l)
@@ -240,6 +254,19 @@ def judgeLine (st : St) (l : String) : Except Verdict St := do
     let st := { st with jArr := (src, msg) :: st.jArr, jSteps := (src, msg.grp, t) :: st.jSteps,
                         jRaw := (src, " ".intercalate ("pt" :: t.repr :: rest)) :: st.jRaw }
     let st := addBrs st (joinBranches st (st.jn.group st.jcfg msg.grp) src (goRound st.jcfg.tol t))
+    let (nd, sets, status) := st.jn.point st.jcfg src msg
+    judgeJoin st l obs nd sets status [] false
+  | "j" :: "bat" :: src :: t :: rest =>
+    let some src := src.toNat? | throw (.badop l)
+    let some t := t.toInt? | throw (.badop l)
+    let some msg0 := parseMsg t rest | throw (.badop l)
+    let some pts := parsePts ((kvGet (kvOf rest) "pts").getD "-") | throw (.badop l)
+    let msg := { msg0 with points := pts, dims := (sortPairs msg0.tags).map (·.1) }
+    if src ≥ st.jcfg.parents then throw (.badop l)
+    let st := { st with jArr := (src, msg) :: st.jArr, jSteps := (src, msg.grp, t) :: st.jSteps,
+                        jRaw := (src, " ".intercalate ("bat" :: t.repr :: rest)) :: st.jRaw }
+    let st := addBrs st (joinBranches st (st.jn.group st.jcfg msg.grp) src (goRound st.jcfg.tol t))
+    let st := addBr st "batch-join"
     let (nd, sets, status) := st.jn.point st.jcfg src msg
     judgeJoin st l obs nd sets status [] false
   | "j" :: "bar" :: src :: t :: rest =>
@@ -395,17 +422,19 @@ where
     let (outToks, stToks) := match obs with
       | _ :: rest => (rest.takeWhile (· != "|"), (rest.dropWhile (· != "|")).drop 1)
       | [] => ([], [])
-    let pts := outToks.filter (·.startsWith "P;")
+    let pts := outToks.filter (fun t => t.startsWith (if st.jBatch then "Q;" else "P;"))
     let obsAll := st.jObs ++ pts
     let steps := st.jSteps.reverse
     let arrivals := st.jArr.reverse
     let ordered := decide (Spec.joinOrdered st.jcfg steps)
-    if fin && ordered then
-      let want := sortStrings ((Spec.joinOutput st.jcfg arrivals).map renderOut)
+    if fin && ordered && (!st.jBatch || decide (Spec.batchPointsOrdered st.jcfg arrivals)) then
+      let want := sortStrings (if st.jBatch then (Spec.joinBatchOutput st.jcfg arrivals).map renderBOut
+                               else (Spec.joinOutput st.jcfg arrivals).map renderOut)
       let got := sortStrings obsAll
       if want != got then throw (.specfail "join-pairs-by-occurrence" s!"{l}: spec {want} observed {got}")
     -- correspondence
-    let mOut := (sets.filterMap (joinIntoPoint st.jcfg)).map renderOut ++ extra
+    let mOut := (if st.jBatch then (sets.filterMap (joinIntoBatch st.jcfg)).map renderBOut
+                 else (sets.filterMap (joinIntoPoint st.jcfg)).map renderOut) ++ extra
     let mOut := if fin then sortStrings mOut else mOut
     let mdl := [toString mOut.length] ++ mOut ++ ["|"] ++ renderGroups nd
     if status != .ok then throw (.mismatch s!"{l}: model status {statusTok status}, observed {obs}")
@@ -417,6 +446,16 @@ where
       st := addBr st (if s.ready then "emit-ready-set" else match st.jcfg.fill with
         | .none => "drop-incomplete-set-inner" | .null => "fill-null" | .num _ => "fill-number")
       if s.ready then st := { st with nontrivial := true }
+    if st.jBatch then
+      for s in sets do
+        match joinIntoBatch st.jcfg s with
+        | some b =>
+          st := addBr st (if b.points.isEmpty then "batch-out-empty" else "batch-out-points")
+          if b.points.length ≥ 2 then st := { st with nontrivial := true }
+          let allp := s.values.flatMap Spec.batchPoints
+          if (allp.map (fun p => goRound st.jcfg.tol p.time)).eraseDups.length < allp.length then st := addBr st "batch-points-same-time"
+        | none => pure ()
+      if !decide (Spec.batchPointsOrdered st.jcfg arrivals) then st := addBr st "batch-unordered-points"
     if !fin && sets.length ≥ 2 then st := addBr st "emit-several-at-once"
     if !fin && sets.any (fun s => !s.ready) then st := addBr st "emit-nonready-heads-passed"
     if st.jcfg.tol > 0 then st := addBr st "tolerance"
